@@ -231,6 +231,11 @@ def _ind_list(ctx, kind, ind, ndim):
     return [(int(i),) for i in ind.tolist()] if ndim == 1 else [tuple(c) for c in ind.T.tolist()]
 
 
+def _pol(v):
+    """polarity as an int; anything that is not a finite number maps to a value no edge has"""
+    return int(v) if v == v and abs(v) != float("inf") else 99
+
+
 def _fronts_list(ctx, kind, r, ndim):
     """Output of fronts -> list of (position tuple, polarity) or None."""
     if not ctx.check(isinstance(r, tuple) and len(r) == 2, kind, lambda: f"fronts returned {type(r).__name__}, not (indices, polarities)"):
@@ -459,7 +464,7 @@ def _e2e_layout(case, ctx, U, got, exp_all, lay, ro):
         guard.verify("fronts")
         fl = _fronts_list(ctx, "C10.e2e_fronts_layout", r, 2)
         if fl is not None:
-            ctx.check(events([q for q, _ in fl], [int(s_) for _, s_ in fl]) == exp_e, "C10.e2e_fronts_layout",
+            ctx.check(events([q for q, _ in fl], [_pol(s_) for _, s_ in fl]) == exp_e, "C10.e2e_fronts_layout",
                       lambda: f"fronts ({what}): recovered events differ from the generated edges")
     for nm, fn, sg_ in (("rises", U.rises, 1), ("falls", U.falls, -1)):
         r = ctx.call("C10." + nm + "2d", fn, arr, **kw)
@@ -476,7 +481,7 @@ def _e2e_layout(case, ctx, U, got, exp_all, lay, ro):
             if r is ctx.CRASH:
                 return
             fl = _fronts_list(ctx, "C10.e2e_fronts_layout", r, 1)
-            if fl is None or not ctx.check([(q[0], int(s_)) for q, s_ in fl] == _edges(exp_all[:, linemap[j]]), "C10.e2e_fronts_layout",
+            if fl is None or not ctx.check([(q[0], _pol(s_)) for q, s_ in fl] == _edges(exp_all[:, linemap[j]]), "C10.e2e_fronts_layout",
                                            lambda: f"fronts on row {j} ({what}): recovered edges differ from the generated ones"):
                 break
         guard.verify("fronts (rows)")
@@ -569,7 +574,7 @@ def _run_train(case, ctx, sg):
                 fl = _fronts_list(ctx, "C10.e2e_fronts", fr, 1)
                 if fl is None:
                     break
-                ok = [(q[0], int(s_)) for q, s_ in fl] == e
+                ok = [(q[0], _pol(s_)) for q, s_ in fl] == e
                 if not ctx.check(ok, "C10.e2e_fronts", lambda: f"line {k}: recovered edges differ from the generated ones"):
                     break
                 ri = ctx.call("C10.rises", U.rises, got[:, k])
@@ -588,7 +593,7 @@ def _run_train(case, ctx, sg):
             if fr2 is not ctx.CRASH:
                 fl = _fronts_list(ctx, "C10.e2e_fronts2d", fr2, 2)
                 if fl is not None:
-                    got_e = sorted((c, t, int(s_)) for (t, c), s_ in fl)
+                    got_e = sorted((c, t, _pol(s_)) for (t, c), s_ in fl)
                     exp_e = sorted((k, i, s_) for k in range(16) for i, s_ in _edges(lines[:, k]))
                     ctx.check(got_e == exp_e, "C10.e2e_fronts2d", "2-D fronts along axis 0 differ from the generated edges")
             # the same array in another memory layout (all lines, analog ones included): layout must not matter
